@@ -948,7 +948,7 @@ def selftest():
     expect_violation("MC_codec", {"Dev": '{"F2"}', "MaxN": 1}, ["C08"], "C08", "F2", init="Init")
     expect_violation("MC_codec", {"Dev": '{"F3", "F5"}', "MaxN": 1}, ["C08"], "C08", "F3F5", init="Init")
     expect_violation("MC_codec", {"Dev": '{"F4"}', "MaxN": 1}, ["C09"], "C09", "F4", init="Init")
-    for dev, inv in (("F7", "C13toy"), ("F8", "C16anchored"), ("F9", "C17noOpenings"), ("F10", "C19masks")):
+    for dev, inv in (("F7", "C13toy"), ("F8", "C16anchored"), ("F13", "C16tolerance"), ("F9", "C17noOpenings"), ("F10", "C19masks")):
         expect_violation("MC_cl", {"Dev": '{"%s"}' % dev, "MaxN": 1, "Bound": 12}, [inv], inv, dev, init="Init")
     rc, out = tlc("MC_rng", RNG_CFG % "TRUE", "selftest_rng", workers=4)
     hit = "Invariant Fresh is violated" in out
